@@ -33,7 +33,24 @@ func RaceStep(tier string, seed int64) ([]string, map[string]any) {
 	var out bytes.Buffer
 	cmd.Stdout = &out
 	cmd.Stderr = &out
-	err := cmd.Run()
+	limit := 4 * time.Minute
+	if tier == "thorough" {
+		limit = 30 * time.Minute
+	}
+	if err := cmd.Start(); err != nil {
+		Fatal("cannot start the race-detector runner: %v", err)
+	}
+	waitc := make(chan error, 1)
+	go func() { waitc <- cmd.Wait() }()
+	var err error
+	hung := false
+	select {
+	case err = <-waitc:
+	case <-time.After(limit):
+		hung = true
+		cmd.Process.Kill()
+		<-waitc
+	}
 	text := out.String()
 	blocks := strings.Split(text, "==================")
 	var viol []string
@@ -57,7 +74,13 @@ func RaceStep(tier string, seed int64) ([]string, map[string]any) {
 		Fatal("race detector reports involve only harness frames:\n%s", tail(text, 40))
 	}
 	wrong := false
-	if ee, ok := err.(*exec.ExitError); ok && len(viol) == 0 {
+	if hung && len(viol) == 0 {
+		wrong = true
+		p := filepath.Join(VerifDir, "replays", "race-runner-hung.txt")
+		os.MkdirAll(filepath.Dir(p), 0o755)
+		os.WriteFile(p, []byte("the operations run by cmd/verifrace did not return in time (they normally take seconds)\n"+tail(text, 60)), 0o644)
+		viol = append(viol, p)
+	} else if ee, ok := err.(*exec.ExitError); ok && len(viol) == 0 {
 		if ee.ExitCode() == 3 {
 			wrong = true
 			p := filepath.Join(VerifDir, "replays", "race-wrong-results.txt")
